@@ -163,6 +163,49 @@ fn scan_run(rec: &mut Recorder, arm: Option<Arm>, pssm_cells: &[Vec<i64>], ranks
     rec.nontrivial(&("scanner", arm_name(arm), pssm_cells.to_vec(), ranks.to_vec(), bs, grid(t, GS)));
 }
 
+/// The threshold of a live scanner is lowered after the first hit: the byte threshold of the pre-filter must follow it.
+/// Logged: both thresholds, the block size, the first hit (returned under the high threshold) and every hit reported after
+/// the change.  Blocks after the one that produced the first hit had not been scanned when the threshold changed, so no
+/// position of theirs that meets the LOW threshold may be lost.
+fn scan_rethreshold(rec: &mut Recorder, arm: Option<Arm>, pssm_cells: &[Vec<i64>], ranks: &[usize], prof: &str, bs: usize, sel: usize) {
+    type A = Dna;
+    let m = pssm_cells.len();
+    let l = ranks.len();
+    if l < m { return; }
+    let pssm = build_pssm::<A>(pssm_cells);
+    let mut seq = build_seq::<A, U32>(ranks, 0);
+    seq.configure(&pssm);
+    let n = l - m + 1;
+    let mut real: Vec<f32> = (0..n).map(|i| pssm.score_position(&seq, i)).filter(|x| x.is_finite()).collect();
+    real.sort_by(|a, b| b.partial_cmp(a).unwrap());
+    real.dedup();
+    if real.len() < 3 { return; }
+    let hi = real[(sel % 3).min(real.len() - 2)];
+    let lo = real[(real.len() / 2 + sel) % real.len()].min(hi);
+    force(arm);
+    let r = guarded(|| {
+        let mut sc = Scanner::new(&pssm, &seq);
+        sc.threshold(hi).block_size(bs);
+        let first = sc.next().map(|h| h.position());
+        sc.threshold(lo);
+        let mut hits: Vec<usize> = Vec::new();
+        for _ in 0..(l + 2) { match sc.next() { Some(h) => hits.push(h.position()), None => break } }
+        hits.sort();
+        (first, hits)
+    });
+    force(None);
+    let mut o = json!({"ev":"dscan2","be":"scanner","arm":arm_name(arm),"abc":A::NAME,"C":32,"K":A::KK,"prof":prof,
+        "seq":ranks,"pssm":pssm_cells,"hi":grid(hi, GS),"lo":grid(lo, GS),"bs":bs});
+    match r {
+        Ok((first, h)) => { o["ret"] = json!("ok"); o["first"] = match first { Some(p) => json!([p]), None => json!([]) }; o["hits"] = json!(h); }
+        Err(msg) => { rec.class("scanner_panic"); o["ret"] = json!("panic"); o["msg"] = json!(msg); o["first"] = json!([]); o["hits"] = json!([]); }
+    }
+    rec.reset();
+    rec.emit(o);
+    rec.class("scanner_threshold_lowered_mid_scan");
+    rec.nontrivial(&("rethreshold", arm_name(arm), pssm_cells.to_vec(), ranks.to_vec(), bs, grid(hi, GS), grid(lo, GS)));
+}
+
 /// One row spans almost the whole score range and the sequence avoids its worst symbol: every lane of a vector is in
 /// the upper half of the byte range after that row while the remaining rows still contribute.
 fn dominant<A: Abc>(rng: &mut impl Rng, m: usize, l: usize) -> (Vec<Vec<i64>>, Vec<usize>) {
@@ -202,6 +245,7 @@ pub fn record(rec: &mut Recorder, seed: u64, thorough: bool) {
             force(None);
             scan_run(rec, Some(Arm::Avx2), &cells, &ranks, &prof, [1usize, 2, 3, 256][kind % 4], kind);
             if kind % 2 == 0 { scan_run(rec, None, &cells, &ranks, &prof, [256usize, 1, 2][kind % 3], kind / 2); }
+            if l >= 40 { scan_rethreshold(rec, Some(Arm::Avx2), &cells, &ranks, &prof, [1usize, 2, 1, 3][kind % 4], kind); }
             if m >= 2 && m <= 20 {
                 let l = 32 * r.gen_range(2..=5usize) + [0usize, 0, 3, 17][kind % 4];
                 let (cells, ranks) = dominant::<Dna>(&mut r, m, l);
